@@ -354,14 +354,34 @@ func renameInboxPerUser(db *sql.DB, userID int64, newName string) error {
 		return err
 	}
 
-	// Move all messages from INBOX to new mailbox
-	_, err = db.Exec(`
+	// Move all messages from INBOX to new mailbox. The messages keep their UIDs,
+	// so the new mailbox continues INBOX's UID counter: its UIDNEXT must stay
+	// above every UID it holds (RFC 3501 section 2.3.1.1).
+	tx, err := db.Begin()
+	if err != nil {
+		return err
+	}
+	defer func() { _ = tx.Rollback() }()
+
+	_, err = tx.Exec(`
+		UPDATE mailboxes
+		SET uid_next = (SELECT uid_next FROM mailboxes WHERE id = ?)
+		WHERE id = ?
+	`, inboxID, newMailboxID)
+	if err != nil {
+		return err
+	}
+
+	_, err = tx.Exec(`
 		UPDATE message_mailbox
 		SET mailbox_id = ?
 		WHERE mailbox_id = ?
 	`, newMailboxID, inboxID)
+	if err != nil {
+		return err
+	}
 
-	return err
+	return tx.Commit()
 }
 
 // Message management functions for per-user databases
